@@ -33,6 +33,9 @@ def configs(tier, seed):
     cfgs.append({"kind": "wb_eq", "feats": subsets})
     for k in ("mux", "csr_decoder", "csr_bridge", "event_monitor", "gpio", "wb_csr_bridge", "wb_decoder", "sram", "arbiter"):
         cfgs.append({"kind": "connect", "what": k})
+    # the bridge at the edges of its documented range: Wishbone width equal to the CSR width given explicitly, and the widest bus
+    for bw in (8, 64):
+        cfgs.append({"kind": "connect", "what": "wb_csr_bridge", "bridge_dw": bw})
     # memories of exactly one row (the smallest the documentation allows: size * granularity == data_width), default granularity
     for geom in ((4, 32, 8), (2, 16, 8), (2, 32, 16), (8, 64, 8), (4, 32, None), (2, 8, None)):
         cfgs.append({"kind": "connect", "what": "sram", "sram": list(geom)})
@@ -252,7 +255,7 @@ def check_config(ctx, cfg):
             if what == "wb_csr_bridge":
                 bus = csr.Interface(addr_width=4, data_width=8, path=("csr",)); bus.memory_map = MemoryMap(addr_width=4, data_width=8)
                 from amaranth_soc.csr.wishbone import WishboneCSRBridge
-                comp = WishboneCSRBridge(bus, data_width=32); port = comp.wb_bus
+                comp = WishboneCSRBridge(bus, data_width=cfg.get("bridge_dw", 32)); port = comp.wb_bus
             elif what == "wb_decoder":
                 comp = wishbone.Decoder(addr_width=6, data_width=32, granularity=8, features=spelled(cfg)); port = comp.bus
                 want_sig = wishbone.Signature(addr_width=6, data_width=32, granularity=8, features=cfg.get("feats", ALLF))
